@@ -1,1 +1,16 @@
 import Ypv.Props.C11
+/-! C11 — obligations (one `#print axioms` per property theorem) -/
+#print axioms Ypv.MergeAt.mergeat_frame
+#print axioms Ypv.MergeAt.mergeat_frame_created
+#print axioms Ypv.MergeAt.mergeat_targets_merged
+#print axioms Ypv.MergeAt.mergeat_target_is_c05_merge_partial
+#print axioms Ypv.MergeAt.mergeat_meets_spec_partial
+#print axioms Ypv.MergeAt.mergeat_missing_created
+#print axioms Ypv.MergeAt.mergeat_existing_path_is_target
+#print axioms Ypv.MergeAt.mergeat_unmatched_is_error
+#print axioms Ypv.MergeAt.mergeat_uncreatable_is_error
+#print axioms Ypv.MergeAt.mergeat_null_rhs
+#print axioms Ypv.MergeAt.mergeat_spine_kept
+#print axioms Ypv.MergeAt.mergeat_missing_created_scalar
+#print axioms Ypv.MergeAt.mergeat_creation_is_c09
+#print axioms Ypv.MergeAt.mergeat_rules_rebased
